@@ -7,6 +7,7 @@ package c35
 
 import (
 	"fmt"
+	"os"
 	"sort"
 	"strconv"
 	"strings"
@@ -20,15 +21,20 @@ import (
 const rule = "histories: explicit-state BFS over the real wdclient.vidMap for every assignment of 3 volume-server urls to data centers {dc1,dc2} (8) x client data center {none,dc1} (2): events add(vid,url)/delete(vid,url) over 2 vids x 3 urls (12 events); after every event GetLocations, GetVidLocations, LookupVolumeServerUrl and LookupFileId are compared for vids 1,2 and a never-mentioned vid with a reference ordered set (exactly the current urls, each once, correct data center attribute, same-data-center urls before all others, not-found or empty when there are none); every sequence unmerged to depth d0, then merged on (per vid: found flag, ordered urls, slice capacity) until the state space closes or depth d1"
 
 func Main() {
-	mc.Main("C35", "model_checking", rule, func(r *mc.Run) {
+	mc.Main("C35", "model_checking", rule+"; schedules: E1/E2 stateless DFS (sched group binary, vid_map.go rewritten with lock/atomic points and statement-level yields in the lookup path) over all preemption-bounded interleavings of one writer applying 1-3 add/delete notifications and 1-2 readers calling LookupVolumeServerUrl twice: every result must be duplicate free, same-DC first, and equal to the location set at some moment between call and return", func(r *mc.Run) {
 		defer mountlib.QuietGlog()()
 		if r.Replay != "" {
-			if !ReplayHistory(r) {
-				mc.Fatal("replay: witness kind not recognised")
+			if ReplaySchedule(r) || ReplayHistory(r) {
+				return
 			}
-			return
+			mc.Fatal("replay: witness kind not recognised")
 		}
-		Histories(r)
+		if r.ChildPhase() == "" {
+			Histories(r)
+		}
+		// the concurrent-schedules half runs inside the sched group binary (overlay build)
+		r.WorkerProcs = 1
+		r.ParallelExe(os.Getenv("VERIF_BIN_sched"), "sched", 16, func(shard, n int) { Schedules(r, shard, n) })
 	})
 }
 
